@@ -97,6 +97,12 @@ OPS = _c.OrderedDict([
     ('render_pg', ('render', 'select cast(a as int) from t order by a desc nulls last', 'postgresql')),
     ('render_create', ('render', 'create table t (a serial, b int)', 'mysql')),
     ('render_fallback', ('render', 'select cast(a as foo) from t', 'mysql')),
+    # one metadata list without integration_name, used by planners with different predictor namespaces
+    ('plan_ns_mindsdb', ('plan_ns', 'select * from int1.t1 join mindsdb.pred', 'mindsdb')),
+    ('plan_ns_proj2', ('plan_ns', 'select * from int1.t1 join proj2.pred', 'proj2')),
+    # a planning error under a catalog with several projects and no default namespace (messages that list names)
+    ('plan_err_unqualified', ('plan3', 'select * from tbl join int1.t1 on tbl.id = t1.id')),
+    ('plan_err_unknown_db', ('plan3', 'select * from nowhere.t join projx.u')),
 ])
 
 PAIRS = [
@@ -116,6 +122,9 @@ class Env:
     def __init__(self, names=None):
         from mindsdb_sql.render.sqlalchemy_render import SqlalchemyRender
         self.catalog = shared_catalog()
+        self.meta2 = [dict(name='pred'), dict(name='pred2')]
+        self.catalog3 = dict(integrations=['int1', 'int2', {'name': 'projA', 'type': 'project'}, {'name': 'projB', 'type': 'project'}, {'name': 'projD', 'type': 'project'}],
+                             predictor_metadata=[dict(name='pred', integration_name='projC'), dict(name='p2', integration_name='projE'), dict(name='p3', integration_name='projF')])
         need = {OPS[n][2] for n in (names if names is not None else OPS) if OPS[n][0] == 'render'}
         self.renders = {d: SqlalchemyRender(d) for d in sorted(need)}
 
@@ -127,11 +136,15 @@ class Env:
             return obs_print(op[1])
         if op[0] == 'plan':
             return obs_plan(op[1], self.catalog)
+        if op[0] == 'plan_ns':
+            return obs_plan(op[1], dict(integrations=['int1', 'int2'], predictor_namespace=op[2], predictor_metadata=self.meta2))
+        if op[0] == 'plan3':
+            return obs_plan(op[1], self.catalog3)
         if op[0] == 'render':
             return obs_render(op[1], self.renders[op[2]])
 
     def fingerprint(self):
-        return reflect.fingerprint(self.catalog)
+        return reflect.fingerprint((self.catalog, self.meta2, self.catalog3))
 
 
 def reset_lazy_globals():
